@@ -337,7 +337,11 @@ class RSAKey(object):
             checkBytes = self._raw_public_key_op_bytes(sigBytes)
         except ValueError:
             return False
-        paddedBytes = self._addPKCS1Padding(bytes, 1)
+        try:
+            paddedBytes = self._addPKCS1Padding(bytes, 1)
+        except MessageTooLongError:
+            # no valid signature of this digest exists for a key this small
+            return False
         return checkBytes == paddedBytes
 
     def verify(self, sigBytes, bytes, padding='pkcs1', hashAlg=None,
@@ -672,6 +676,10 @@ class RSAKey(object):
 
     def _addPKCS1Padding(self, bytes, blockType):
         padLength = (numBytes(self.n) - (len(bytes)+3))
+        # RFC 8017, sections 7.2.1 and 9.2: the padding string is at least
+        # eight octets long
+        if padLength < 8:
+            raise MessageTooLongError("Message too long for the key size")
         if blockType == 1: #Signature padding
             pad = [0xFF] * padLength
         elif blockType == 2: #Encryption padding
